@@ -61,7 +61,11 @@ Proof. exact abort_is_loud_lemma. Qed.
 
 (* A segment that occupies sequence space (data, FIN, retransmitted SYN-ACK)
    always elicits an ACK on an open connection, accepted or not: a lost ACK is
-   repaired by the retransmission it provokes (repaired defect, e48efc8). *)
+   repaired by the retransmission it provokes (repaired defect, e48efc8).
+   `data_state` = Established, CloseWait, FinWait1, Closing, LastAck: in
+   particular AFTER the peer's FIN has been taken (peer_fin = true: CloseWait,
+   Closing, LastAck) a retransmitted FIN or data+FIN is still re-ACKed - the
+   statement has no peer_fin side condition. *)
 Theorem c06_dup_reacked : forall cap t s,
   data_state (t_state t) = true \/ t_state t = FinWait2 ->
   (payload s <> [] \/ f_fin s = true \/ f_syn s = true) ->
